@@ -26,17 +26,24 @@ mod c20;
 pub struct Report {
     pub cases: u64,
     pub failing: Vec<Value>,
+    /// ids the caller asked to hear about when they PASS (the witnesses of open known findings: a finding that stops failing means
+    /// the behaviour changed)
+    pub watch: Vec<String>,
+    pub watch_passed: Vec<String>,
 }
 
 impl Report {
     pub fn new() -> Self {
-        Report { cases: 0, failing: vec![] }
+        let watch = std::env::var("VERIF_WATCH_IDS").ok().and_then(|s| serde_json::from_str::<Vec<String>>(&s).ok()).unwrap_or_default();
+        Report { cases: 0, failing: vec![], watch, watch_passed: vec![] }
     }
     /// record one case; `ok == false` means the real code violated the property on this input
     pub fn case(&mut self, id: &str, input: Value, expected: &str, observed: String, ok: bool) {
         self.cases += 1;
         if !ok {
             self.failing.push(json!({"id": id, "input": input, "expected": expected, "observed": observed}));
+        } else if self.watch.iter().any(|w| w == id) {
+            self.watch_passed.push(id.to_string());
         }
     }
 }
@@ -45,29 +52,41 @@ fn main() {
     let args: Vec<String> = std::env::args().collect();
     let prop = args.get(1).map(|s| s.as_str()).unwrap_or("");
     panic::set_hook(Box::new(|_| {}));
+    if prop == "_SELF_DELEGATION" { fuzz::self_delegation_child(); return; }
     let mut r = Report::new();
-    match prop {
-        "C14" => { c14::run(&mut r); fuzz::run(&mut r); c20::run(&mut r); c03::run(&mut r) }
-        "C18" => c18::run(&mut r),
-        "C19" => c19::run(&mut r),
-        "C20" => c20::run(&mut r),
-        "C01" => { c01::run_c01(&mut r); gen::run(&mut r); model::run(&mut r, "differential") }
-        "C04" => c01::run_c04(&mut r),
-        "C06" => { c01::run_c06(&mut r); c15::run(&mut r); model::run(&mut r, "differential") }
-        "C07" => { c01::run_c07(&mut r); c15::run(&mut r); model::run(&mut r, "differential") }
-        "C02" => { c02::run(&mut r); model::run(&mut r, "differential") }
-        "C03" => { c03::run(&mut r); model::run(&mut r, "differential") }
-        "C08" => { c08::run(&mut r); c03::run(&mut r) }
-        "C09" => { c09::run_c09(&mut r); gen::run(&mut r) }
-        "C05" => { c10::run_c05(&mut r); c10::run_c10(&mut r); c09::run_c09(&mut r); gen::run(&mut r) }
-        "C11" => { c09::run_c11(&mut r); c12::run(&mut r) }
-        "C10" => c10::run_c10(&mut r),
-        "C12" => c12::run(&mut r),
-        "MODEL" => model::run(&mut r, "differential"),
-        "GEN" => gen::run(&mut r),
-        "C13" => { c13::run(&mut r); model::run(&mut r, "differential") }
-        "C15" => { c15::run(&mut r); c02::run(&mut r) }
-        _ => {}
+    // every witness group runs under catch_unwind: an input on which a witness cannot even set its scenario up (signing, building,
+    // serialising unexpectedly fails or panics) is itself a finding, reported as `witness-aborted` with the panic message
+    let groups: Vec<(&str, fn(&mut Report))> = match prop {
+        "C14" => vec![("c14", c14::run), ("fuzz", fuzz::run), ("c20", c20::run), ("c03", c03::run)],
+        "C18" => vec![("c18", c18::run)],
+        "C19" => vec![("c19", c19::run)],
+        "C20" => vec![("c20", c20::run)],
+        "C01" => vec![("c01", c01::run_c01), ("gen", gen::run), ("model", model::run_differential)],
+        "C04" => vec![("c04", c01::run_c04)],
+        "C06" => vec![("c06", c01::run_c06), ("c15", c15::run), ("model", model::run_differential)],
+        "C07" => vec![("c07", c01::run_c07), ("c15", c15::run), ("model", model::run_differential)],
+        "C02" => vec![("c02", c02::run), ("model", model::run_differential)],
+        "C03" => vec![("c03", c03::run), ("model", model::run_differential)],
+        "C08" => vec![("c08", c08::run), ("c03", c03::run)],
+        "C09" => vec![("c09", c09::run_c09), ("gen", gen::run)],
+        "C05" => vec![("c05", c10::run_c05), ("c10", c10::run_c10), ("c09", c09::run_c09), ("gen", gen::run)],
+        "C11" => vec![("c11", c09::run_c11), ("c12", c12::run)],
+        "C10" => vec![("c10", c10::run_c10)],
+        "C12" => vec![("c12", c12::run)],
+        "MODEL" => vec![("model", model::run_differential)],
+        "GEN" => vec![("gen", gen::run)],
+        "C13" => vec![("c13", c13::run), ("model", model::run_differential)],
+        "C15" => vec![("c15", c15::run), ("c02", c02::run)],
+        _ => vec![],
+    };
+    for (name, f) in groups {
+        let before = r.cases;
+        let res = panic::catch_unwind(panic::AssertUnwindSafe(|| f(&mut r)));
+        if let Err(e) = res {
+            let msg = e.downcast_ref::<String>().cloned().or_else(|| e.downcast_ref::<&str>().map(|s| s.to_string())).unwrap_or_else(|| "panic".to_string());
+            r.cases += 1;
+            r.failing.push(json!({"id": "witness-aborted", "input": {"group": name, "cases_completed_in_group": r.cases - 1 - before}, "expected": "every scenario of the group can be set up and judged", "observed": msg.chars().take(600).collect::<String>()}));
+        }
     }
-    println!("{}", json!({"property": prop, "cases": r.cases, "failing": r.failing}));
+    println!("{}", json!({"property": prop, "cases": r.cases, "failing": r.failing, "watch_passed": r.watch_passed}));
 }
